@@ -116,6 +116,14 @@ def gen_knobs(rng, prop, profile):
             for i, name in ((0, a), (1, b)):
                 res_sizes[name] = rng.choice([100, 300, 1000])
                 keys[i] = dict(keys[i], scheme="sim", res=name, comment="")
+    if len(keys) >= 2 and rng.random() < 0.06:
+        # two uris that differ only in the letter case of the bucket ("host") part: sim://bucket/x and sim://Bucket/x
+        a = keys[0]
+        if a["scheme"] == "sim" and "/" not in a["res"] and not a["comment"]:
+            twin = rng.choice(["Bucket/", "BUCKET/"]) + a["res"]
+            if ("sim", twin, "") not in {(x["scheme"], x["res"], x["comment"]) for x in keys}:
+                res_sizes[twin] = rng.choice([100, 300, 1000])
+                keys[1] = {"scheme": "sim", "res": twin, "comment": "", "pp": a["pp"], "val": keys[1]["val"]}
     if c19 and len(keys) >= 3 and rng.random() < 0.06:
         keys[-1] = dict(keys[-1], scheme="nosuch")  # a uri whose scheme no resource handles
     sizes = sorted(res_sizes[k["res"]] + (4 if k["pp"] else 0) for k in keys)
@@ -178,6 +186,8 @@ def gen_knobs(rng, prop, profile):
         "wide": wide,
         "fine_grained": bool(profile.get("fine_grained", False)) or (big and rng.random() < 0.04),
         "http_gzip": rng.random() < 0.4,  # does the simulated http server gzip-encode bodies (Content-Encoding)?
+        # skew between the clock the process reads and the clock that stamps the files (a file server)
+        "proc_clock_skew_ns": wchoice(rng, [(90, 0), (3, -30 * 10**9), (3, 30 * 10**9), (2, -2 * 10**9), (2, 2 * 10**9)]),
         "cache_dir_link": rng.random() < 0.07,  # the cache directory is a symbolic link to a directory elsewhere
         "http_no_length": rng.random() < 0.3,  # ... and does it stream without announcing a Content-Length?
     }
